@@ -125,6 +125,13 @@ def read_tree(base, skip=()):
                 out['/' + os.path.relpath(p, base)] = f.read()
     return out
 
+def world_tree(sb):
+    """relpath (relative to the sandbox root) -> bytes of every regular file of the user's world:
+    HOME and the project dir (not AGENTPACK_HOME, not the project's .git)"""
+    t = read_tree(sb.root, skip=(sb.aphome, os.path.join(sb.project, '.git'), sb.canary))
+    t.pop('/gitconfig', None)
+    return t
+
 # ===================================================================== library-level stream (avh)
 
 TARGETS = ['codex', 'claude_code', 'zed']
@@ -412,6 +419,9 @@ class CfgWorld:
         self.opts = {'write_agents_global': rng.random() < 0.8, 'write_user_prompts': rng.random() < 0.85,
                      'write_user_skills': rng.random() < 0.8}
         self.claude = rng.random() < 0.6
+        self.zed = rng.random() < 0.35                 # zed target (project scope): <project>/.rules
+        self.repo_agents = rng.random() < 0.35         # codex scope both + write_agents_repo_root: <project>/AGENTS.md
+        self.project = sb.project
         self.modules = []
         for i in range(rng.randrange(0, 3)):
             self.modules.append({'id': 'prompt:p%d' % i, 'type': 'prompt', 'dir': 'modules/prompts/p%d' % i,
@@ -424,17 +434,19 @@ class CfgWorld:
                                  'targets': rng.choice([[], ['codex']]), 'enabled': True})
         if rng.random() < 0.7:
             self.modules.append({'id': 'instructions:base', 'type': 'instructions', 'dir': 'modules/instructions/base',
-                                 'files': {'AGENTS.md': rng.choice([b'# rules\n', b'be nice\n'])}, 'targets': rng.choice([[], ['codex']]), 'enabled': True})
+                                 'files': {'AGENTS.md': rng.choice([b'# rules\n', b'be nice\n'])}, 'targets': rng.choice([[], [], ['codex'], ['zed'], ['codex', 'zed']]), 'enabled': True})
         for i in range(rng.randrange(0, 3)):
             self.modules.append({'id': 'command:c%d' % i, 'type': 'command', 'dir': 'modules/claude-commands/c%d' % i,
                                  'files': {'c%d.md' % i: command_md(rng.choice(['do x', 'do y']))},
                                  'targets': rng.choice([[], ['claude_code']]), 'enabled': True})
     def write(self):
         sb = self.sb
-        targets = {'codex': {'mode': 'files', 'scope': 'user',
-                             'options': dict(self.opts, codex_home=self.codex_home, write_agents_repo_root=False, write_repo_skills=False)}}
+        targets = {'codex': {'mode': 'files', 'scope': 'both' if self.repo_agents else 'user',
+                             'options': dict(self.opts, codex_home=self.codex_home, write_agents_repo_root=bool(self.repo_agents), write_repo_skills=False)}}
         if self.claude:
             targets['claude_code'] = {'mode': 'files', 'scope': 'user', 'options': {}}
+        if self.zed:
+            targets['zed'] = {'mode': 'files', 'scope': 'project', 'options': {}}
         mods = []
         for m in self.modules:
             d = os.path.join(sb.repo, m['dir'])
@@ -450,6 +462,9 @@ class CfgWorld:
             if self.opts['write_agents_global']: r.append({'target': 'codex', 'root': self.codex_home, 'scan_extras': False})
             if self.opts['write_user_prompts']: r.append({'target': 'codex', 'root': self.codex_home + '/prompts', 'scan_extras': True})
             if self.opts['write_user_skills']: r.append({'target': 'codex', 'root': self.codex_home + '/skills', 'scan_extras': True})
+            if self.repo_agents: r.append({'target': 'codex', 'root': self.project, 'scan_extras': False})
+        if self.zed and flt in (None, 'zed'):
+            r.append({'target': 'zed', 'root': self.project, 'scan_extras': False})
         if self.claude and flt in (None, 'claude_code'):
             r.append({'target': 'claude_code', 'root': self.claude_cmds, 'scan_extras': True})
         r.sort(key=lambda x: (x['target'], x['root'].split('/')))      # targets::dedup_roots: sorted by (target, path)
@@ -467,8 +482,13 @@ class CfgWorld:
             elif m['type'] == 'skill' and for_codex and self.opts['write_user_skills']:
                 for rel, b in m['files'].items():
                     D.append({'target': 'codex', 'path': self.codex_home + '/skills/' + m['id'].split(':', 1)[1] + '/' + rel, 'bytes': b})
-            elif m['type'] == 'instructions' and for_codex and self.opts['write_agents_global']:
-                D.append({'target': 'codex', 'path': self.codex_home + '/AGENTS.md', 'bytes': m['files']['AGENTS.md']})
+            elif m['type'] == 'instructions':
+                if for_codex and self.opts['write_agents_global']:
+                    D.append({'target': 'codex', 'path': self.codex_home + '/AGENTS.md', 'bytes': m['files']['AGENTS.md']})
+                if for_codex and self.repo_agents:
+                    D.append({'target': 'codex', 'path': self.project + '/AGENTS.md', 'bytes': m['files']['AGENTS.md']})
+                if self.zed and (not m['targets'] or 'zed' in m['targets']) and flt in (None, 'zed'):
+                    D.append({'target': 'zed', 'path': self.project + '/.rules', 'bytes': m['files']['AGENTS.md']})
             elif m['type'] == 'command' and for_claude:
                 (fn, b), = m['files'].items()
                 D.append({'target': 'claude_code', 'path': self.claude_cmds + '/' + fn, 'bytes': b})
@@ -494,7 +514,7 @@ class CfgWorld:
             self.modules.remove(rng.choice(self.modules)); return 'remove_module'
         return 'none'
 
-def user_edit(rng, cw, flt_hint=None):
+def user_edit(rng, cw, flt_hint=None, manifests=True):
     """perturb the target roots like a user would; returns tag"""
     sb = cw.sb
     D = cw.desired(None)
@@ -503,18 +523,18 @@ def user_edit(rng, cw, flt_hint=None):
         d = rng.choice(D)
         world.write(d['path'], rng.choice([d['bytes'], b'user version\n', b'other\n'])); return 'collide'
     if k < 0.45:
-        tree = read_tree(sb.home)
+        tree = world_tree(sb)
         deployed = [p for p in tree if not is_manifest_name(os.path.basename(p))]
         if deployed:
             p = rng.choice(sorted(deployed))
-            if rng.random() < 0.5: os.remove(sb.home + p)
-            else: world.write(sb.home + p, b'drift\n')
+            if rng.random() < 0.5: os.remove(sb.root + p)
+            else: world.write(sb.root + p, b'drift\n')
             return 'drift'
     if k < 0.6:
         p = rng.choice([cw.codex_home + '/prompts/mine.md', cw.codex_home + '/notes.txt', cw.codex_home + '/skills/own/SKILL.md',
-                        cw.claude_cmds + '/mine.md'])
+                        cw.claude_cmds + '/mine.md', cw.project + '/README.md'])
         world.write(p, b'mine\n'); return 'userfile'
-    if k < 0.85:
+    if k < 0.85 and manifests:
         r = rng.choice(cw.roots(None) or [{'target': 'codex', 'root': cw.codex_home}])
         pref = r['root'] + '/' + mf_name(r['target']); leg = r['root'] + '/' + LEGACY
         what = rng.choice(['delete', 'garbage', 'foreign', 'legacy', 'badversion', 'stale_extra'])
@@ -729,8 +749,8 @@ def run_cli_stream(ctx, nhist, depth, props, stream='cli_deploy', idempotence=Fa
             cw = CfgWorld(sb, rng); cw.write()
             for _ in range(rng.randrange(0, 3)):
                 user_edit(rng, cw)
-            ids = Ids(); base = sb.home
-            initial = read_tree(base)
+            ids = Ids(); base = sb.root
+            initial = world_tree(sb)
             prev = initial
             steps = []; trees = [initial]; Ds = []; Rs = []; recs = []
             pending_repeat = False
@@ -745,15 +765,15 @@ def run_cli_stream(ctx, nhist, depth, props, stream='cli_deploy', idempotence=Fa
                         tags.append('cfg:' + cw.edit_config()); cw.write()
                     if rng.random() < 0.5:
                         tags.append('user:' + user_edit(rng, cw))
-                    flt = rng.choice([None, None, 'codex'] + (['claude_code'] if cw.claude else []))
+                    flt = rng.choice([None, None, 'codex'] + (['claude_code'] if cw.claude else []) + (['zed'] if cw.zed else []))
                     adopt = rng.random() < 0.35
                     entry = rng.choice(ENTRY)
-                before = read_tree(base)
+                before = world_tree(sb)
                 lm = latest_managed_of(sb, base)
                 nsnap = snapshots_count(sb)
                 D = relD(cw.desired(flt), base); R = relR(cw.roots(flt), base)
                 plan, code, extra = run_deploy_step(sb, cw, entry, adopt, flt)
-                after = read_tree(base)
+                after = world_tree(sb)
                 rec = {'stream': stream, 'history': h, 'step': st, 'entry': entry, 'adopt': adopt, 'target': flt, 'tags': tags,
                        'config': {'opts': cw.opts, 'claude': cw.claude, 'modules': [{k: (v if k != 'files' else {a: b.hex() for a, b in v.items()}) for k, v in m.items()} for m in cw.modules]},
                        'before': {p: b.hex() for p, b in before.items()}, 'outcome': code}
@@ -852,7 +872,7 @@ class HistState:
         self.owned = {}        # path -> target for files agentpack wrote and has not deleted
         self.events = []       # (ordinal or None, kind)
 
-def run_hist_stream(ctx, nhist, depth, props, weights, stream='full_hist'):
+def run_hist_stream(ctx, nhist, depth, props, weights, stream='full_hist', tamper=False):
     rng = ctx.rng
     cases = []
     kinds = [k for k, wgt in weights.items() for _ in range(wgt)]
@@ -863,13 +883,17 @@ def run_hist_stream(ctx, nhist, depth, props, weights, stream='full_hist'):
             if not cw.opts['write_user_skills'] and rng.random() < 0.7:
                 cw.opts['write_user_skills'] = True
             cw.write()
-            ids = Ids(); base = sb.home
+            ids = Ids(); base = sb.root
             for _ in range(rng.randrange(0, 2)):
-                user_edit(rng, cw)
-            initial = read_tree(base); prev = initial
-            steps = []; recs = []; hs = HistState()
+                user_edit(rng, cw, manifests=tamper)
+            initial = world_tree(sb); prev = initial
+            steps = []; recs = []; hs = HistState(); burst = 0
             for st in range(depth):
                 kind = rng.choice(kinds) if st > 0 else 'deploy'
+                if burst > 0 and st > 0:
+                    kind = 'rollback'; burst -= 1
+                elif kind == 'rollback' and rng.random() < 0.5:
+                    burst = rng.randrange(1, 3)      # rollback bursts: redo / sibling rollbacks in a row
                 sids = list_snapshot_ids(sb)
                 if kind == 'rollback' and not sids:
                     kind = 'deploy'
@@ -878,10 +902,10 @@ def run_hist_stream(ctx, nhist, depth, props, weights, stream='full_hist'):
                     if st > 0 and rng.random() < 0.6:
                         tags.append('cfg:' + cw.edit_config()); cw.write()
                     if rng.random() < 0.35:
-                        tags.append('user:' + user_edit(rng, cw))
+                        tags.append('user:' + user_edit(rng, cw, manifests=tamper))
                 elif rng.random() < 0.3:
-                    tags.append('user:' + user_edit(rng, cw))
-                before = read_tree(base)
+                    tags.append('user:' + user_edit(rng, cw, manifests=tamper))
+                before = world_tree(sb)
                 steps.append('(HEdit %s)' % c_edits(prev, before, ids))
                 rec = {'stream': stream, 'history': h, 'step': st, 'op': kind, 'tags': tags,
                        'config': {'opts': dict(cw.opts), 'claude': cw.claude,
@@ -889,13 +913,13 @@ def run_hist_stream(ctx, nhist, depth, props, weights, stream='full_hist'):
                        'before': {p: b.hex() for p, b in before.items()}}
                 stop = False
                 if kind == 'deploy':
-                    flt = rng.choice([None, None, None, 'codex'] + (['claude_code'] if cw.claude else []))
+                    flt = rng.choice([None, None, None, 'codex'] + (['claude_code'] if cw.claude else []) + (['zed'] if cw.zed else []))
                     adopt = rng.random() < 0.4
                     entry = rng.choice(['cli_json', 'cli_json', 'cli_human_yes', 'mcp', 'tui'])
                     lm = latest_managed_of(sb, base)
                     D = relD(cw.desired(flt), base); R = relR(cw.roots(flt), base)
                     plan, code, extra = run_deploy_step(sb, cw, entry, adopt, flt)
-                    after = read_tree(base)
+                    after = world_tree(sb)
                     rec.update({'entry': entry, 'adopt': adopt, 'target': flt, 'outcome': code})
                     if plan is None or isinstance(code, str) or code is None:
                         ctx.notes.append('%s history %d step %d: deploy not judged (%s)' % (stream, h, st, str(code)[:80]))
@@ -929,7 +953,7 @@ def run_hist_stream(ctx, nhist, depth, props, weights, stream='full_hist'):
                 elif kind == 'bootstrap':
                     rc, pdoc, _, _ = sb.cli_json(['bootstrap', '--scope', 'user', '--dry-run'])
                     rc, doc, out, err = sb.cli_json(['bootstrap', '--scope', 'user', '--yes'])
-                    after = read_tree(base)
+                    after = world_tree(sb)
                     if not doc or not doc.get('ok'):
                         ctx.notes.append('%s history %d step %d: bootstrap not judged (%s)' % (stream, h, st, out[:120]))
                         if before != after:
@@ -971,7 +995,7 @@ def run_hist_stream(ctx, nhist, depth, props, weights, stream='full_hist'):
                     else:
                         ordn = len(sids) + 3; sid = '12345'
                     rc, doc, out, err = sb.cli_json(['rollback', '--to', sid, '--yes'])
-                    after = read_tree(base)
+                    after = world_tree(sb)
                     ok = bool(doc and doc.get('ok'))
                     rec.update({'to_ordinal': ordn, 'ok': ok})
                     uni = hist_universe([before, after], [], [])
@@ -1000,7 +1024,7 @@ def run_hist_stream(ctx, nhist, depth, props, weights, stream='full_hist'):
                 else:   # evolve restore
                     D = relD(cw.desired(None), base)
                     rc, doc, out, err = sb.cli_json(['evolve', 'restore', '--yes'])
-                    after = read_tree(base)
+                    after = world_tree(sb)
                     if doc is None or (not doc.get('ok') and doc['errors'][0]['code'] not in ('E_CONFIRM_REQUIRED',)):
                         ctx.notes.append('%s history %d step %d: evolve restore not judged (%s)' % (stream, h, st, out[:160]))
                         if before != after:
